@@ -26,9 +26,9 @@ ASSUMPTIONS = [
     "string references are issued from one fixed module per history, except in the dedicated two-module scenario (D27)",
 ]
 PLAN = {"quick": dict(histories=736, maxlen=50, pressure=False), "thorough": dict(histories=13760, maxlen=60, pressure=True)}
-FLOORS = {"quick": {"suite_unmarshal_determinism_judged": 20, "suite_tests_passed": 1400, "ops_compared_with_cold": 12000, "histories": 540, "redefinition_histories": 450, "equal_but_distinct_inputs": 3000, "result_mutations": 900, "aliasing_checks": 20000,
+FLOORS = {"quick": {"suite_unmarshal_determinism_judged": 20, "suite_tests_passed": 1400, "ops_compared_with_cold": 12000, "histories": 540, "redefinition_histories": 450, "equal_but_distinct_inputs": 3000, "one_text_several_types": 1200, "result_mutations": 900, "aliasing_checks": 20000,
                     "union_twin_histories": 150, "two_module_string_ref_histories": 50},
-          "thorough": {"suite_unmarshal_determinism_judged": 20, "suite_tests_passed": 1400, "ops_compared_with_cold": 300000, "histories": 10000, "redefinition_histories": 8000, "equal_but_distinct_inputs": 60000, "result_mutations": 25000,
+          "thorough": {"suite_unmarshal_determinism_judged": 20, "suite_tests_passed": 1400, "ops_compared_with_cold": 300000, "histories": 10000, "redefinition_histories": 8000, "equal_but_distinct_inputs": 60000, "one_text_several_types": 25000, "result_mutations": 25000,
                        "aliasing_checks": 300000, "union_twin_histories": 2500, "cache_pressure_ops": 100}}
 
 
@@ -455,6 +455,15 @@ def run_case(sh, i, plan):
                 for x0 in rng.sample(eq_pool, min(len(eq_pool), rng.choice([2, 2, 3]))):
                     sh.count("equal_but_distinct_inputs")
                     ops.append({"kind": kind, "t": tb, "x": add(safe_copy(x0))})
+                    lib_ops.append(len(ops) - 1)
+            elif r < 0.44:
+                # ONE text offered to several types in a burst (a cache keyed on the text alone would serve the first type's answer)
+                text = rng.choice(["2020-01-01", "2020-01-01T10:00:00+00:00", "12:30:00+00:00", "P1D", "PT1S", "1577836800", "1", "1.5", "[1, 2]", "null", "true"])
+                scal = [k for k, sp in enumerate(specs) if sp.kind == "scalar"]
+                targets = rng.sample(scal, min(len(scal), 3)) if len(scal) >= 2 else [ti, rng.randrange(len(types))]
+                for tb in targets:
+                    sh.count("one_text_several_types")
+                    ops.append({"kind": "unmarshal", "t": tb, "x": add(text if rng.random() < 0.7 else text.encode())})
                     lib_ops.append(len(ops) - 1)
             elif r < 0.50:
                 x = hostile.pool_item(rng)
